@@ -1,7 +1,7 @@
 (* C03 -- property theorems only: statement + exact + Print Assumptions. *)
 From Coq Require Import List ZArith Bool.
 From LJT Require Import model.Huff model.Seq model.Prog model.Script model.ArithBin gen.GenNatOrder
-  proofs.NatOrderProofs proofs.SeqBits proofs.SeqProofs proofs.ProgProofs proofs.ScriptProofs
+  proofs.NatOrderProofs proofs.SeqBits proofs.SeqProofs proofs.ProgProofs proofs.ProgRefineProofs proofs.ScriptProofs
   proofs.ChainProofs proofs.ArithProofs proofs.ExampleCodec proofs.C03Examples gen.GenRestartClamp proofs.RestartProofs.
 Import ListNotations.
 Local Open Scope Z_scope.
@@ -147,24 +147,39 @@ Print Assumptions C03_ac_first_values.
 Example C03_eobrun_overflow_nonvacuous : 32767 < 32800 /\ eobrun_example_check 32800 = true.
 Proof. split; [reflexivity|exact eobrun_example_ok]. Qed.
 
-(* ---- AC refinement (PARTIAL).  Full statement: one restart interval of AC refinement round-trips
-   for every codec, band and block list (EOBRUN with buffered correction bits, ZRL folding into
-   EOB, forced flushes).  Proved: the byte/restart layer on top of it for every restart interval,
-   the value rule (C03_sa_chain_restores uses ac_refine_val), and concrete instances by
-   computation.  The general segment-level induction is the open gap (design/C03.md). *)
-Definition C03_ac_refine_scan_roundtrip_full : Prop :=
-  forall ac Ss Se Al, (1 <= Ss)%nat -> (Ss <= Se)%nat /\ (Se <= 63)%nat -> 0 <= Al ->
-    acr_segment_roundtrip ac Ss Se Al.
+(* ---- AC refinement (jcphuff.c encode_mcu_AC_refine / jdphuff.c decode_mcu_AC_refine): for every
+   codec, band 1 <= Ss <= Se <= 63, Al >= 0, every block list and every state of already-coded
+   coefficients (band = magnitude truncation at Al+1), one restart interval round-trips: EOBRUN of
+   any length with the buffered correction bits (BE), the BR bits behind each symbol, ZRL only
+   while a newly nonzero coefficient follows (k <= EOB), the forced flushes at 0x7FFF and at
+   BE > MAX_CORR_BITS - DCTSIZE2 + 1; and so does a whole scan for every restart interval *)
+Theorem C03_ac_refine_segment_roundtrip : forall ac Ss Se Al bl cur bits rest,
+  (1 <= Ss)%nat -> (Ss <= Se)%nat /\ (Se <= 63)%nat -> 0 <= Al ->
+  length cur = length bl ->
+  Forall (fun bc => acr_hist Ss Se Al (fst bc) (snd bc)) (combine bl cur) ->
+  enc_acr_blocks ac Ss Se Al bl 0 [] = Some bits ->
+  dec_acr_blocks ac Ss Se Al cur 0 (bits ++ rest) =
+    Some (map (fun bc => acr_expected Ss Se Al (fst bc) (snd bc)) (combine bl cur), rest).
+Proof. intros ac Ss Se Al bl cur bits rest H1 H2 H3. exact (acr_segment_roundtrip_thm ac Ss Se Al H1 H2 H3 bl cur bits rest). Qed.
+Print Assumptions C03_ac_refine_segment_roundtrip.
 
-Theorem C03_ac_refine_scan_roundtrip_partial : forall ac Ss Se Al Ri bl cur bytes,
-  acr_segment_roundtrip ac Ss Se Al ->
+Theorem C03_ac_refine_scan_roundtrip : forall ac Ss Se Al Ri bl cur bytes,
+  (1 <= Ss)%nat -> (Ss <= Se)%nat /\ (Se <= 63)%nat -> 0 <= Al ->
   length cur = length bl ->
   Forall (fun bc => acr_hist Ss Se Al (fst bc) (snd bc)) (combine bl cur) ->
   acr_enc_scan ac Ss Se Al Ri bl = Some bytes ->
   acr_dec_scan ac Ss Se Al Ri cur bytes =
     Some (map (fun bc => acr_expected Ss Se Al (fst bc) (snd bc)) (combine bl cur)).
-Proof. exact acr_scan_roundtrip_from_segment. Qed.
-Print Assumptions C03_ac_refine_scan_roundtrip_partial.
+Proof. exact acr_scan_roundtrip. Qed.
+Print Assumptions C03_ac_refine_scan_roundtrip.
+
+(* the result, pointwise: band positions hold sign(v) * ((|v| >> Al) << Al), the rest is untouched *)
+Theorem C03_ac_refine_values : forall Ss Se Al b blk,
+  length (acr_expected Ss Se Al b blk) = 64%nat /\
+  forall j, (j < 64)%nat -> nth (order j) (acr_expected Ss Se Al b blk) 0 =
+    if in_band Ss Se j then ac_state Al (nth (order j) b 0) else nth (order j) blk 0.
+Proof. exact acr_expected_spec. Qed.
+Print Assumptions C03_ac_refine_values.
 
 Example C03_ac_refine_instances :
   acr_example_check 1 63 1 = true /\ acr_example_check 1 63 0 = true /\ acr_example_check 2 40 1 = true.
